@@ -455,6 +455,27 @@ def imRequest (op : Operation) (flag : Bool) (tr : Option (Nat × Nat)) (paths :
       { top := some "InvalidAction", resp := [], effects := [] }
     else { top := none, resp := answers, effects := itemsOf answers }
 
+/-- one `WriteRequest` message of a chunked Write action (`MoreChunkedMessages` on all but the last) -/
+structure Chunk where
+  /-- the chunk's own `TimedRequest` flag -/
+  flag : Bool
+  /-- how far the clock moved between the answer to the previous message and this chunk -/
+  delay : Nat
+  paths : List Path
+deriving Repr
+
+/-- `InteractionModel::write`: the `while` over the chunks of one Write action. **Every** chunk goes
+through `timed_out` with its own flag at its own arrival time (`elapsed` since the TimedRequest,
+if any, accumulates), and is expanded with its own flag; a closed gate answers with the status and
+ends the action (`break`). `answers flag paths` = the expansion of one chunk. -/
+def imWriteChunks (answers : Bool → List Path → List Out) (timeout : Option Nat) :
+    Nat → List Chunk → List Outcome
+  | _, [] => []
+  | elapsed, c :: rest =>
+    let now := elapsed + c.delay
+    let o := imRequest .write c.flag (timeout.map (fun t => (t, now))) c.paths (answers c.flag c.paths)
+    if o.top.isSome then [o] else o :: imWriteChunks answers timeout now rest
+
 /-! # Specification (from the text of C06)
 
 "A request returns data for, mutates, or invokes exactly those attributes, commands and events that
